@@ -185,6 +185,17 @@ CHECKS = {
             "Conventions applied to both sides: unset initial-state attributes read back as 0, signal_series None == [], "
             "stop-line refs None == empty, lanelet assignments not file content",
             "DESIGN.md §4 C02"),
+    "C01": ("deviation-bounded exhaustive enumeration: all scenario specs within k deviations of the base scenario x decimal "
+            "precisions, each written by the real XML writer, read by the real reader and compared as public snapshots "
+            "within 10^-d",
+            "Menu of ~950 deviations restricted to what the shipped 2020a XSD can express (enumerations parsed from the XSD; "
+            "every sign id of every supported country with the matching scenario country), same structure as C02 plus "
+            "degenerate and narrow intervals and stop-line-only references. quick: k<=1 x d in {1,4,12} + 1/16 of all pairs at "
+            "d=4; thorough: k<=1 x d=1..12, all pairs at d=4, 1/8 of all pairs at d=2.",
+            "trusted: mc/snap.py, mc/spec.py; expected = snapshot of the objects built from the spec with the documented "
+            "reader conventions applied (unset initial-state attributes -> 0, stop line without points -> lanelet end, sign "
+            "first_occurrence not in the schema). Known finding listed: sign 'virtual' flag is lost (pinned tests assert it)",
+            "DESIGN.md §4 C01"),
 }
 
 NOT_YET = {}
